@@ -17,7 +17,7 @@ RULE = ('seeded generator: planes with amplitude/OPD each scalar or 2-D, mask No
 ASSUMPTIONS = ['a plane with scalar amplitude, array OPD and no mask has no extent and is excluded (DESIGN.md C07)',
                'segment masks of one plane are pairwise disjoint']
 PLAN = {'quick': {'gen': 8}, 'thorough': {'gen': 16, 'tests': 1, 'docs': 1}}
-REQUIRED_BUCKETS = ['broadband', 'plane:reused', 'wf:chain-overlap', 'amp:scalar', 'amp:array', 'opd:scalar', 'opd:array', 'mask:none', 'mask:2d', 'mask:3d',
+REQUIRED_BUCKETS = ['wf:many-fields', 'broadband', 'plane:reused', 'wf:chain-overlap', 'amp:scalar', 'amp:array', 'opd:scalar', 'opd:array', 'mask:none', 'mask:2d', 'mask:3d',
                     'amp:scalar+mask:array', 'wf:default', 'wf:chain', 'wf:multi-field', 'wf:overlapping-fields',
                     'plane:default', 'pixelscale:mismatch', 'pixelscale:mismatch:scalar-plane', 'insert:weight0', 'insert:negative', 'pupil:focal']
 REQUIRED_ANCHORS = ['probe:Plane.multiply', 'probe:Pupil.multiply', 'probe:Wavefront.field',
@@ -326,8 +326,32 @@ def _touch_views(ctx, lentil, rng, w):
         pass
 
 
+def many_fields(ctx, lentil, rng):
+    """A plane with more than a thousand one-pixel segments (a lenslet / MEMS-like mask): after propagation all the output
+    chips overlap; the three views of the wavefront still agree (the probes decide)."""
+    n = 34
+    k = 1100 + int(rng.integers(0, 40))
+    pix = rng.permutation(n * n)[:k]
+    seg = np.zeros((k, n, n))
+    seg[np.arange(k), pix // n, pix % n] = 1
+    ctx.case({'many-fields': k}, ['wf:many-fields'])
+    try:
+        w = lentil.Wavefront(6e-7) * lentil.Pupil(amplitude=1, mask=seg, pixelscale=1e-3, focal_length=5.0)
+        wi = lentil.propagate_dft(w, 5e-6, shape=(6, 7), oversample=1)
+        f = wi.field
+        inten = wi.intensity
+        acc = wi.insert(np.zeros((6, 7)), 0.5)
+        ctx.check(np.allclose(inten, np.abs(f) ** 2, rtol=1e-10, atol=1e-12 * float(inten.max())) and np.allclose(acc, 0.5 * inten, rtol=1e-12),
+                  'intensity=|field|^2', 'many-fields|views', 'the views of a wavefront with more than a thousand overlapping fields disagree',
+                  {'fields': len(wi.data)})
+    except Exception as e:
+        ctx.check(False, 'intensity=|field|^2', f'many-fields|raises={type(e).__name__}', f'{type(e).__name__}: {str(e)[:120]}', {'fields': k})
+
+
 def workload(ctx, lentil):
     rng = ctx.rng
+    if ctx.shard % 4 == 0:
+        many_fields(ctx, lentil, rng)
     n = ctx.count(130, 900)
     hi = 20 if ctx.tier == 'quick' else 40
     for i in range(n):
